@@ -100,6 +100,14 @@ impl<R: Read + Seek + HasLength> CloneableSeekableReader<R> {
     }
 }
 
+/// verification hook (only with `--cfg adlt_verif`): construct the crate private reader for conformance tests
+#[cfg(adlt_verif)]
+pub fn verif_new_cloneable_seekable_reader<R: Read + Seek + HasLength>(
+    r: R,
+) -> impl Read + Seek + Clone {
+    CloneableSeekableReader::new(r)
+}
+
 impl<R: Read + Seek + HasLength> Read for CloneableSeekableReader<R> {
     fn read(&mut self, buf: &mut [u8]) -> std::io::Result<usize> {
         let mut inner = self.inner.lock().unwrap();
